@@ -167,7 +167,7 @@ def rule_text(ctx):
     r = RuleResult('TEXT', 'every chunk delivered to a caller-supplied callback carries its text whenever the stream was requested with '
                            'final_source = false (the only value outside callers can construct): text-less emissions are unreachable '
                            'under that assumption, `then_some` conditions evaluate to true, forwarded chunks come from text-carrying streams')
-    r.floor = 25
+    r.floor = 15
     r.assumptions.append('user-defined child sources honour the StreamChunks contract (induction over the tree)')
     es = entries(f)
     if len(es) < 10:
@@ -214,7 +214,7 @@ def rule_unwrap_text(ctx):
     f = ctx.facts()
     r = RuleResult('UNWRAP-TEXT', '`chunk.unwrap()` inside internal chunk callbacks cannot panic: the stream feeding each such closure is '
                                   'requested with final_source = false, so TEXT guarantees Some')
-    r.floor = 2
+    r.floor = 1
     for e in entries(f):
         A = None
         for b in f.body_list:
@@ -245,7 +245,7 @@ def rule_opts_lit(ctx):
     f = ctx.facts()
     r = RuleResult('OPTS-LIT', 'a MapOptions value with final_source != false never escapes: it is built only as a temporary passed by '
                                'reference into a streaming call')
-    r.floor = 5
+    r.floor = 3
     mo = anchors.adt_by_name(f, 'MapOptions')['path']
     for b in f.body_list:
         if b.promoted is not None:
